@@ -806,16 +806,16 @@ def run(chk, model_ok):
     from collections import Counter
     rng = chk.rng
     thorough = chk.tier == "thorough"
-    n_syn = 520 if thorough else 130
+    n_syn = 1500 if thorough else 130
     cases = list(CORPUS)
     fams = ["share"] * 5 + ["indep"] * 2 + ["seq"] * 3
     for i in range(n_syn):
         fam = fams[i % len(fams)]
         cases.append(gen_syn_case(rng, f"s{i}", fam))
-    for i in range(160 if thorough else 40):
+    for i in range(400 if thorough else 40):
         cases.append(gen_refusal_case(rng, f"r{i}"))
-    cases += gen_example_cases(rng, 60 if thorough else 22, thorough)
-    cases += gen_malformed(rng, 28 if thorough else 14)
+    cases += gen_example_cases(rng, 120 if thorough else 22, thorough)
+    cases += gen_malformed(rng, 42 if thorough else 14)
     for c in cases:
         if "fmt_append" in c:
             c["fmt"] = "NETCDF4"
